@@ -284,7 +284,8 @@ def c17_7(ctx):
     if "little_endian_to_int(bits[:-1])" in src:
         out.append(ctx.ok(spec, "mantissa = the first three bytes, little endian", fn, mod, key="mantissa"))
     else:
-        out.append(ctx.bad(spec, "mantissa is not little_endian_to_int(bits[:-1])", fn, mod, key="mantissa"))
+        out.append(ctx.bad(spec, "mantissa is read big-endian", fn, mod, key="mantissa") if "big_endian_to_int(bits[:-1])" in src and "little_endian_to_int(bits[:-1])" not in src else
+                   ctx.err(spec, "mantissa idiom little_endian_to_int(bits[:-1]) not recognised", fn, mod))
     return out
 
 
